@@ -31,3 +31,5 @@ open WebPkg.C20Har
 #print axioms har_first_kept
 #print axioms har_validated_primary
 #print axioms har_bundle_read_back
+#print axioms har_override_replaces
+#print axioms har_override_no_colon
